@@ -11,7 +11,7 @@
     is recorded in KNOWN_FINDINGS (F3) - no caller can observe it.
     SOURCE TIE (tools/rs2coq): the functions named below are ALSO regenerated from the Rust source on every
     run by a syn-based translator (coq/gen/Src.v) and proved EQUAL to the hand-written model functions the
-    theorems above are about ([rs_*_eq], proofs/SrcEquiv*.v) - for all inputs and both build modes; a change to
+    theorems above are about ([rs_*_eq], proofs/SrcEq*.v) - for all inputs and both build modes; a change to
     that Rust code changes the generated file and breaks these equalities.
     Here: round, round_nearest_tie_even, round_down (rounding.rs); lower_n_mask, lower_n_halfway, nth_bit (mask.rs). *)
 
@@ -19,7 +19,7 @@ From Coq Require Import ZArith QArith List Bool Reals.
 From Coq Require Import Floats.SpecFloat.
 From Flocq Require Import Core.Core.
 From ML Require Import base.RustSem model.Fmt model.Mask model.Num model.Rounding model.FloatOps spec.Round spec.RneZ spec.RneBridge
-  gen.Consts proofs.RoundingFactsZ proofs.RoundingFacts proofs.RoundingFactsRne proofs.Glue gen.Src proofs.SrcEquiv.
+  gen.Consts proofs.RoundingFactsZ proofs.RoundingFacts proofs.RoundingFactsRne proofs.Glue gen.Src proofs.SrcEqBase proofs.SrcEqMask proofs.SrcEqRounding.
 
 Open Scope Z_scope.
 
